@@ -132,6 +132,7 @@ def main():
     bad += other_paths()
     bad += tape_vs_file()
     bad += re_model()
+    bad += re_model_symbolic()
     print('crosscheck', 'OK' if not bad else 'FAILED (%d)' % bad)
     return 1 if bad else 0
 
@@ -336,6 +337,44 @@ def re_model():
         if got != want: n += 1; print('DIFFER find %r.find(%r, %r, %r) = %r, model %r' % (s, c, a, b, want, got))
     print('%s re model / deciding find vs CPython (%d cases)' % ('agree ' if not n else 'DIFFER', cases))
     return n
+
+
+def re_model_symbolic():
+    """the `re` model on symbolic strings (length <= 5 over a small alphabet): on every path, a string of the path gives in CPython
+    the span, the groups and the findall list the model computed for the whole path"""
+    import re, z3
+    from pyvc.engine import Engine
+    from pyvc import rx
+    e = Engine(REPO, timeout_ms=20000)
+    bad = n = 0
+    for pat in [r'^([+-]?\d+\.?\d*)([+-]\d+)$', r'\.[0-9]+', r'(a|ab)(c|bcd)(d*)', r'^\s*(\d+)\s*$']:
+        results = []
+        def prog(e):
+            s = e.sym_str('s', maxlen=5, alphabet='+-.019 abcd')
+            po = rx.compile_(e, pat)
+            m = po.fields['search'].fn(e, s)
+            fa = None
+            try: fa = po.fields['findall'].fn(e, s)
+            except Exception: pass
+            sol = z3.Solver(); sol.add(*e.pc); assert sol.check() == z3.sat
+            text = e.model_inputs(sol.model())['s']
+            got = None if m is None else (m.fields['span'].fn(e), tuple(x if x is None or isinstance(x, str) else e.model_value(sol.model(), x) for x in m.fields['groups'].fn(e)))
+            def conv(x):
+                if isinstance(x, (tuple, list)): return tuple(conv(y) for y in x)
+                return x if x is None or isinstance(x, str) else e.model_value(sol.model(), x)
+            results.append((text, got, None if fa is None else [conv(x) for x in fa]))
+        e.explore(prog, 'rx')
+        for text, got, fa in results:
+            n += 1
+            c = re.search(pat, text); want = None if c is None else (c.span(), c.groups())
+            if got != want: bad += 1; print('DIFFER', pat, repr(text), got, want)
+            if fa is not None:
+                w = re.findall(pat, text)
+                w = [tuple(x) if isinstance(x, tuple) else x for x in w]
+                f2 = [tuple(e2 if isinstance(e2, str) else e2 for e2 in x) if isinstance(x, (tuple, list)) else x for x in fa]
+                if f2 != w: bad += 1; print('DIFFER findall', pat, repr(text), f2, w)
+    print('%s re model on symbolic strings vs CPython (%d paths)' % ('agree ' if not bad else 'DIFFER', n))
+    return bad
 
 
 def _sym(s):
